@@ -342,8 +342,7 @@ inline bool do_decode(optional<T>& x, const uint8_t*& pos, const uint8_t* end)
     {
         return decoder<E, T>::decode(*x, pos, end);
     }
-    pos = pos + codec_traits<T>::size;
-    return true;
+    return do_decode_advance(codec_traits<T>::size, pos, end);
 }
 
 template <endianness E, typename T>
@@ -372,11 +371,16 @@ inline bool do_decode_resize(std::vector<T>& v, const uint8_t*& pos, const uint8
     {
         return false;
     }
-    if (n > max)
+    if (size_t(n) > max)
     {
         return false;
     }
-    v.resize(n);
+    /// each element occupies at least one byte, so a greater count can't be genuine
+    if (size_t(n) > size_t(end - pos))
+    {
+        return false;
+    }
+    v.resize(size_t(n));
     return true;
 }
 
